@@ -10,7 +10,7 @@
  "models": ["models/libc_string.c", "models/http_env.c"],
  "cbmc": ["--malloc-may-fail", "--malloc-fail-null", "--memory-leak-check", "--unwindset", "http_request2.0:4,http_request2.1:4,http_request2_wrapped_for_contract_checking.0:4,http_request2_wrapped_for_contract_checking.1:4"],
  "loop_contracts": false,
- "bounded": true, "bound": "four request shapes (RQ_CASE: 0/0/1/2 headers; string lengths fixed per shape, 0..4 characters, contents arbitrary): the two loops over the headers are unwound",
+ "bounded": true, "bound": "four request shapes (RQ_CASE: 0/0/1/2 headers; string lengths fixed per shape, 0..4 characters, contents arbitrary for <= 1 header, fixed for 2 headers): the two loops over the headers are unwound",
  "timeout": 900,
  "assumptions": ["BOUNDED: number of request headers and string LENGTHS are fixed per matrix case, contents are arbitrary (the equality of the precomputed length and the bytes written is a sum over the headers: no closed form for a loop contract without quantified ghost arrays; and a symbolic malloc(req_headlen + 1) makes cbmc's array encoding run out of memory)",
    "strlen/strcmp/stpcpy: models/libc_string.c; network_connect: models/http_env.c (may fail)"]
@@ -47,7 +47,7 @@ static const size_t rq_len[] = {4, 1};		/* "HEAD" fits */
 static const size_t rq_len[] = {3, 2, 1, 0};
 #else
 #define RQ_NH 2
-static const size_t rq_len[] = {2, 1, 1, 1, 1, 0};
+static const size_t rq_len[] = {4, 1, 2, 3, 0, 2};
 #endif
 static char * rq_base[3 + 2 * RQ_MAXH];
 static size_t rq_n;
@@ -58,9 +58,17 @@ rq_str(void)
 	size_t len = rq_len[rq_n], k;
 	char * s = h_obj(len + 1);
 
+#if RQ_CASE == 3
+	/* two headers: concrete contents (with symbolic contents the chain of stpcpy results exhausts cbmc's memory) */
+	for (k = 0; k < RQ_MAXS; k++)
+		if (k < len)
+			s[k] = (char)('a' + rq_n + k);
+	s[len] = '\0';
+#else
 	for (k = 0; k < RQ_MAXS; k++)
 		__CPROVER_assume(k >= len || s[k] != '\0');
 	__CPROVER_assume(s[len] == '\0');
+#endif
 	rq_base[rq_n++] = s;
 	return (s);
 }
